@@ -230,6 +230,7 @@ def run(chk):
             mlate = cls_(r_U=1, em_iterations=1, ubm=late_ubm, random_state=1, **({} if kind == "isv" else {"r_V": 1}))
             late_ubm.fit(np.vstack(Xa))
             snap_ubm = snap(late_ubm)
+            trained_copy = copy.deepcopy(late_ubm)
             try:
                 mlate.fit_using_array(Xa, ya)
                 chk.count(1, key=("%s.fit_using_array[ubm trained by the caller after construction]" % kind.upper(),))
@@ -237,7 +238,17 @@ def run(chk):
                     chk.fail("%s.fit_using_array re-trains / modifies a UBM that the caller had already trained (it was untrained only when the machine was constructed)"
                              % kind.upper(), {"kind": kind})
             except Exception as e:
-                chk.fail("%s.fit_using_array with a UBM trained after construction raises %r" % (kind.upper(), e), {"kind": kind})
+                # a two-step UBM on twelve frames can come out degenerate (a component on one frame): then the ordinary route - a machine
+                # constructed on the already trained UBM - raises as well, and the draw says nothing about this property
+                try:
+                    cls_(r_U=1, em_iterations=1, ubm=trained_copy, random_state=1, **({} if kind == "isv" else {"r_V": 1})).fit_using_array(Xa, ya)
+                    ordinary_ok = True
+                except Exception:
+                    ordinary_ok = False
+                if ordinary_ok:
+                    chk.fail("%s.fit_using_array with a UBM trained after construction raises %r" % (kind.upper(), e), {"kind": kind})
+                else:
+                    chk.count(1, key=("%s.fit_using_array[degenerate two-step UBM: the ordinary route raises too]" % kind.upper(),))
             guarded("%s.enroll_using_array/score_using_array" % kind.upper(), {"X": Xa, "machine": mach},
                     lambda: (mach.enroll_using_array(Xa[0]), mach.score_using_array(mdl, list(Xa[:2]))), lambda o: [])
         # ---------------------------------------------------------------- i-vector
